@@ -6,6 +6,7 @@ algorithm == hash of the child's wrapped manifest as embedded == the child's own
 coincide; embedded child == creating it on its own).
 """
 import os
+import random
 import shutil
 import zlib
 
@@ -107,6 +108,15 @@ def build_node(rec, r, w, depth, maxdepth, uniq, counters, rd=None):
         if r.random() < 0.15:
             name = r.choice(["deadbeef", "00", "cafe01", "ABCDEF"]) + uniq.encode().hex() + f"{i:02x}"   # bare all-hex
             counters.add("bare-hex-file-name")
+        rr = random.Random(f"hexgroups/{rec.seed}/{uniq}/{i}/{len(data)}")
+        if rr.random() < 0.08:
+            # names that only LOOK like hex to a lenient reader (blank-separated groups, 0x prefix, colons): by the
+            # language's rule (an even-length all-hex token is a literal) they are paths
+            u = uniq.encode().hex() + f"{i:02x}"
+            groups = " ".join(u[j:j + 2] for j in range(0, len(u), 2))
+            name = rr.choice([f"c0 ff ee {groups}", f"de ad {groups}", f"0x{u}", ":".join(["de", "ad"] + groups.split()),
+                              f"{groups} ", f"dead beef{u}"])
+            counters.add("hex-groups-file-name")
         ref = w.add(name, data, absolute=r.random() < 0.3)
         alg = r.choice(G.HASHES)
         form = r.choice(["file", "file", "file_direct", "raw"])
@@ -163,7 +173,16 @@ def build_node(rec, r, w, depth, maxdepth, uniq, counters, rd=None):
                         counters.add("child-differs-from-reference")   # reported when the child is the case itself
                 except refenc.Unsupported:
                     counters.add("child-unknown-to-reference")
-                cref = w.add(f"{uniq}{i}_child" + r.choice([".suit", "", ".bin"]), c.value, absolute=r.random() < 0.3)
+                child_bytes = c.value
+                if random.Random(f"foreign/{rec.seed}/{uniq}/{i}/{len(c.value)}").random() < 0.3:
+                    # the child file as ANOTHER tool would have written it: the same manifest, another (well-formed)
+                    # encoding - the sequence number in the two-byte form - and the child's own digest correct for
+                    # these bytes.  The file is embedded as it is, so the parent's digest has to cover THESE bytes.
+                    fb = foreign_encoding(c.value)
+                    if fb is not None:
+                        child_bytes = fb
+                        counters.add("dependency:by-path:foreign-encoding")
+                cref = w.add(f"{uniq}{i}_child" + r.choice([".suit", "", ".bin"]), child_bytes, absolute=r.random() < 0.3)
                 dep_val, env_ref = cref, cref
             else:
                 dep_val, env_ref = child_desc, child_desc
@@ -181,6 +200,35 @@ def build_node(rec, r, w, depth, maxdepth, uniq, counters, rd=None):
         e.pop(where, None)
     m[where] = (m.get(where) if isinstance(m.get(where), list) else []) + seq
     return d, None
+
+
+def foreign_encoding(data):
+    """the same envelope with its manifest re-encoded in a well-formed but not shortest form (sequence number `18 nn`
+    for nn < 24) and the authentication digest recomputed over the new wrapped manifest; None when not applicable"""
+    try:
+        env = envmodel.Env(data)
+        man = env.manifest_item.val                      # content of the manifest bstr
+        pairs = mcbor.decode(man)
+        seqv = None
+        for k, v in pairs.items:
+            if k.val == 2 and k.mt == 0:
+                seqv = v
+        if seqv is None or seqv.mt != 0 or not (0 <= seqv.val < 24) or seqv.hlen != 1:
+            return None
+        new_man = man[:seqv.start] + bytes([0x18, seqv.val]) + man[seqv.end:]
+        old_dg = env.digest
+        new_dg = envmodel.H(env.digest_alg, mcbor.enc(new_man))
+        if len(new_dg) != len(old_dg) or data.count(old_dg) != 1:
+            return None
+        mi = env.manifest_item
+        out = data[:mi.start] + mcbor.enc(new_man) + data[mi.end:]
+        out = out.replace(old_dg, new_dg, 1)
+        chk = envmodel.Env(out)
+        if chk.manifest_item.val != new_man or envmodel.H(chk.digest_alg, chk.manifest_item.raw) != chk.digest:
+            return None
+        return out
+    except Exception:  # noqa - not applicable to this child
+        return None
 
 
 def dependency_clauses(data, desc, w, path="$"):
